@@ -176,6 +176,52 @@ func closeAndCheck(rep Rep, s *Sys) bool {
 	return true
 }
 
+// deletingCensus: a set that is being deleted does no pod work, but C12's last clause has no such exception: once
+// everything is quiet its counters are a census of its pods (the controller keeps refreshing the status of such a set).
+// Convergence itself is not demanded here (that is C02's, and a deleting set has nothing to converge to).
+func deletingCensus(rep Rep, s *Sys) {
+	B := closingBudget(s)
+	var fixed bool
+	if s.W != nil && s.W.EventMode {
+		fixed, _ = s.ConvergeEvents(2 * B)
+	} else {
+		fixed, _, _ = s.Converge(B)
+	}
+	set := s.Set()
+	if !fixed || set == nil || set.DeletionTimestamp == nil {
+		rep.Label("closing:set-deleting(no fixed point, skipped)")
+		return
+	}
+	rep.Label("closing:set-deleting(census)")
+	sel, err := metav1.LabelSelectorAsSelector(set.Spec.Selector)
+	if err != nil {
+		return
+	}
+	n, ready, cur, upd := 0, 0, 0, 0
+	for _, p := range s.C.PodsIn(NS) {
+		if _, ok := model.Canonical(s.Name, p.Name); !ok || !isControlledBy(p.OwnerReferences, set.UID) || !sel.Matches(labels.Set(p.Labels)) {
+			continue
+		}
+		n++
+		if p.Status.Phase == corev1.PodRunning && sim.IsReady(p) {
+			ready++
+		}
+		if p.DeletionTimestamp == nil && p.Status.Phase != "" {
+			if podRev(p) == set.Status.CurrentRevision {
+				cur++
+			}
+			if podRev(p) == set.Status.UpdateRevision {
+				upd++
+			}
+		}
+	}
+	st := set.Status
+	if int(st.Replicas) != n || int(st.ReadyReplicas) != ready || int(st.CurrentReplicas) != cur || int(st.UpdatedReplicas) != upd {
+		rep.Violate("fixpoint/census-of-deleting-set", "the set is being deleted and everything is quiet: status {replicas=%d ready=%d current=%d updated=%d} but its pods are {total=%d ready=%d atCurrent=%d atUpdate=%d}\n%s",
+			st.Replicas, st.ReadyReplicas, st.CurrentReplicas, st.UpdatedReplicas, n, ready, cur, upd, s.Transcript())
+	}
+}
+
 // nameTaken: some pod holds the name of a desired ordinal of set without being claimable by it.
 func nameTaken(s *Sys, set *asv1.StatefulSet) bool {
 	sel, err := metav1.LabelSelectorAsSelector(set.Spec.Selector)
@@ -331,6 +377,8 @@ func runC12(rep Rep, w World) {
 	}
 	if strays {
 		rep.Label("closing-skipped:non-canonical-pod-names")
+	} else if set := s.Set(); set != nil && set.DeletionTimestamp != nil && set.Annotations["paused-reconcile"] != "true" {
+		deletingCensus(rep, s)
 	} else {
 		closeAndCheck(rep, s)
 	}
@@ -359,7 +407,20 @@ var c12Opts = func() worldOpts {
 	return o
 }()
 
+func genC12(rt *rapid.T) World {
+	w := genWorld(rt, c12Opts)
+	if rapid.IntRange(0, 5).Draw(rt, "endsDeleting") == 0 {
+		// the history ends with the set being deleted (held by a finalizer) while its pods still change
+		w.Ops = append(w.Ops, Op{K: OpMarkDeleting}, Op{K: OpReconcile},
+			Op{K: OpKubelet, A: rapid.IntRange(0, 20).Draw(rt, "delK1a"), B: rapid.IntRange(0, 20).Draw(rt, "delK1b")},
+			Op{K: OpUserDeletePod, A: rapid.IntRange(0, 20).Draw(rt, "delUD")},
+			Op{K: OpKubelet, A: rapid.IntRange(0, 20).Draw(rt, "delK2a"), B: rapid.IntRange(0, 20).Draw(rt, "delK2b")},
+			Op{K: OpReconcile})
+	}
+	return w
+}
+
 func TestC12(t *testing.T) {
-	checkCases(t, "C12", func(rt *rapid.T) World { return genWorld(rt, c12Opts) }, runC12)
+	checkCases(t, "C12", genC12, runC12)
 }
 func TestRegressC12(t *testing.T) { regress(t, "C12", runC12) }
